@@ -315,6 +315,11 @@ func runC18(ctx *core.Ctx) {
 			if i := strings.Index(base, "("); i > 0 && strings.HasSuffix(base, ")") {
 				vs = append(vs, base[:len(base)-1], base[:i]+base[i+1:], base+")", base[:i+1]+base, base[:i+1]+"("+base[i+1:], "1"+base[:i+1]+base[i+1:len(base)-1])
 			}
+			for q := 0; q < len(base); q++ {
+				if base[q] == '"' || base[q] == '\'' { // one quote of a pair left out
+					vs = append(vs, base[:q]+base[q+1:])
+				}
+			}
 			for _, j := range []string{")", "(", "]", "[", "}", "{", "\"", "'", "]]]", "[[", "(()", "[[--5|||]]]", "\"x"} {
 				vs = append(vs, base+" "+j, j+" "+base, base+j)
 			}
